@@ -172,10 +172,12 @@ def _burst_case(case: dict[str, Any]) -> CaseOut:
                              f'({where})')
                 c.shadow.errors.clear()
 
+        assigned: dict[tuple[int, int], bytes] = {}
         for rno, rnd in enumerate(case['rounds']):
             if out.failures:
                 break
             pending: dict[int, tuple[bytes, bool, bytes]] = {}
+            appended: dict[int, bytes] = {}
             for k, op, a, b in rnd:
                 k %= len(clients)
                 c = clients[k]
@@ -190,6 +192,7 @@ def _burst_case(case: dict[str, Any]) -> CaseOut:
                     vid += 1
                     m = make_message('b%d' % vid)
                     cmd = b'APPEND INBOX {%d+}\r\n%s' % (len(m), m)
+                    appended[k] = b'b%d' % vid
                 elif op == 'store' and uids:
                     pick = uids[a % len(uids):][:1 + b % 3]
                     cmd = b'UID STORE %s %s (%s)' % (
@@ -237,6 +240,16 @@ def _burst_case(case: dict[str, Any]) -> CaseOut:
                 for r in resps:
                     c.shadow.apply(r)
                 c.shadow.in_nonuid = False
+                # C04 under real concurrency: a UID is assigned once
+                import re as _re
+                mu = _re.search(rb'APPENDUID (\d+) (\d+)', raw)
+                if mu and k in appended:
+                    key = (int(mu.group(1)), int(mu.group(2)))
+                    if key in assigned:
+                        out.fail('uid-assigned-twice:threads',
+                                 f'{key} was reported for {assigned[key]!r} '
+                                 f'and for {appended[k]!r}')
+                    assigned[key] = appended[k]
                 if not any(r.kind == 'tagged' and r.tag == tag
                            for r in resps) and not c.conn.done:
                     out.fail('no-completion:threads',
@@ -257,6 +270,14 @@ def _burst_case(case: dict[str, Any]) -> CaseOut:
             assert d is not None
             want = {u: m['flags'] - {b'\\recent'}
                     for u, m in d['messages'].items()}
+            for (uv, u), v in assigned.items():
+                got = d['messages'].get(u)
+                if got is not None and uv == d.get('uidvalidity') \
+                        and got['vid'] != v:
+                    out.fail('appenduid-denotes-another-message:threads',
+                             f'APPENDUID {uv} {u} was given for {v!r}, UID '
+                             f'FETCH finds {got["vid"]!r} there')
+            out.counters['burst_appenduids_checked'] = len(assigned)
             for j, c in enumerate(clients):
                 if c.conn.done:
                     continue
